@@ -9,20 +9,29 @@ path_configs = {'local': 'spil_fs_conf',
 default_path_config = 'local'
 
 
+_finders_by_type: dict = {}
+
+
+def _get_finders_by_type() -> dict:
+    """Finder instances are built once (same structure as the shipped spil_data_conf)."""
+    if not _finders_by_type:
+        from spil_sid_conf import projects
+        from spil import FindInConstants, FindInPaths
+
+        finder_paths = FindInPaths()
+        finder_projects = FindInConstants('p', projects)
+        finder_types = FindInConstants('t', ['a', 's'], parent_source=finder_projects)
+        _finders_by_type.update({
+            'p': finder_projects,
+            'a': finder_types,
+            's': finder_types,
+            'default': finder_paths,
+        })
+    return _finders_by_type
+
+
 def get_finder_for(search_sid, config=None):
-    from spil_sid_conf import projects
-    from spil import FindInConstants, FindInPaths
-
-    finder_paths = FindInPaths()
-    finder_projects = FindInConstants('p', projects)
-    finder_types = FindInConstants('t', ['a', 's'], parent_source=finder_projects)
-
-    finders_by_type = {
-        'p': finder_projects,
-        'a': finder_types,
-        's': finder_types,
-        'default': finder_paths,
-    }
+    finders_by_type = _get_finders_by_type()
     finder = finders_by_type.get(search_sid.type, {}) or finders_by_type.get('default', {})
     return finder or None
 
